@@ -19,6 +19,11 @@ def erased_term(T, n):
     return lib.g_item(n)
 
 
+F4_CORPUS = ["a AND b -c", "a OR b +c d", "(a AND b -c) d", "a AND b TO", "x a AND b -c AND d -e OR f g",
+             "a OR b AND c -d^2 (e OR f +g)", "a AND b -c -d e", "a AND NOT b -c", "f:(a OR b -c)", "a OR b TO^2 c",
+             "a AND b +[1 TO 2]", "NOT a OR b -\"c d\"~2"]
+
+
 def correspond(model_ok, res):
     from luqum.parser import parser
     import luqum.tree as T
@@ -35,6 +40,9 @@ def correspond(model_ok, res):
     sc = PG.structured_corpus()
     strings += sc if not quick else r.sample(sc, len(sc) // 3)
     strings += list(PG.MALFORMED)          # the shared corpus of malformed and odd-but-legal queries
+    # inputs of finding F4's class (the witnesses of C03e.v and relatives): every one must be accepted, be
+    # recognised by the F4 predicate and get a tree that differs from the dictated one (C03e_f4_always_differs)
+    strings += list(F4_CORPUS)
     # layout variants: the same token sequence with two different layouts
     pairs = []
     for _ in range(150 if quick else 1500):
@@ -167,6 +175,11 @@ SPEC = {
                            "C03d_unguarded_refuted", "C03d_guard_is_f4_complement",
                            "C03d_trees_are_the_grammar", "C03d_accepted_derivable", "C03d_accepted_is_query",
                            "C03d_rejects_non_queries", "C03d_grammar_outside_f4"]},
+             {"module": "C03e", "target": "props/C03e.vo",
+              "theorems": ["C03e_no_binary_before_sign", "C03e_never_f4_pattern", "C03e_f4_always_differs",
+                           "C03e_f4_never_agrees", "C03e_measured_count_is_zero", "C03e_f4_tree",
+                           "C03e_f4_tree_parse", "C03e_machine_under_guard", "C03e_f4_class_accepted",
+                           "C03e_same_language", "C03e_agrees_iff_outside_f4"]},
              {"module": "Lrespace", "target": "props/Lrespace.vo",
               "theorems": ["L_respace", "L_respace_parse", "L_respace_accept",
                            "L_respace_no_sep_condition_refuted"]}],
@@ -177,7 +190,13 @@ SPEC = {
                  "(reference parser Grammar.v): for EVERY input the lexer accepts and that is outside finding F4's "
                  "class (Grammar.f4_input = false), the parser returns a tree iff the documented grammar derives the "
                  "token sequence, and then the tree is the dictated one (C03d_grammar_outside_f4); the unguarded "
-                 "statement is refuted by F4 (a AND b -c)",
+                 "statement is refuted by F4 (a AND b -c), and the guard is the narrowest possible: INSIDE F4's class "
+                 "every input is accepted by both parsers and the returned tree always differs from the dictated one "
+                 "(C03e_f4_class_accepted, C03e_f4_always_differs) — it is the value of an executable "
+                 "operator-precedence machine that attaches a juxtaposed operand starting with + - TO to the "
+                 "innermost open operand (C03e_f4_tree, for every query of the documented grammar, no guard); the "
+                 "two parsers accept the same inputs (C03e_same_language) and agree exactly outside F4's class "
+                 "(C03e_agrees_iff_outside_f4)",
     "level_text": "Coq proof of layout independence for any tables (lock-step simulation of two LR runs) and of the "
                   "lexical clauses on the lexer model; clause (c) — the tree is the one the documented grammar "
                   "dictates — is proved for every input outside F4's class and refuted on F4: C03c.v/C03d.v, symbolic "
@@ -187,10 +206,16 @@ SPEC = {
                   "f4free = complement of F4's predicate), table entries as computed facts; the converse by an "
                   "LR-stack invariant carrying derivations (accepted => derivable by the generated productions with "
                   "the tree as semantic value), language inclusion of the PLY grammar in the documented one, and "
-                  "completeness of the syntax-tree type w.r.t. the reference parser.  Still validated only: that the "
-                  "guard is the narrowest (every accepted input in F4's class really gets a different tree) — measured on "
-                  "every token-type sequence up to length 3 (4 thorough) and on generated queries, on every run "
-                  "(distribution.f4_class_inputs_agreeing_with_spec, expected 0).",
+                  "completeness of the syntax-tree type w.r.t. the reference parser.  That the guard is the narrowest "
+                  "(every accepted input in F4's class gets a different tree) is a theorem too (C03e.v / F4Proofs.v): "
+                  "a table fact (no state reduces E OR E / E AND E / E E with lookahead + - TO) carried through a run "
+                  "by an LR-stack invariant shows that a returned tree never contains F4's pattern, which the dictated "
+                  "tree of an F4-class input contains by definition; and a second symbolic execution of the driver, "
+                  "without the guard, against an operator-precedence machine describes the tree parse returns there "
+                  "and shows that parse accepts every query of the documented grammar.  The measurement on every "
+                  "token-type sequence up to length 3 (4 thorough) and on generated queries stays as a cross-check of "
+                  "model against implementation (distribution.f4_class_inputs_agreeing_with_spec, expected 0 = "
+                  "C03e_measured_count_is_zero).",
     "trusted_base": [
         "Coq 8.16.1 kernel (vm_compute for witnesses and correspondence; no native_compute); no axioms",
         "gen/gen_parser.py: live PLY tables, token rules, reserved words",
